@@ -927,6 +927,7 @@ struct World
       if (ctx.events != ev0)
         ++effective;
       check_forest(op.name);
+      ctx.state(state_str());
       ctx.end_op();
     }
     {
